@@ -602,6 +602,8 @@ fn execute(plan: &LocalPlan, mode: Mode) -> RunOut {
     let mut fp = crate::rng::Fp::default();
     fp.str(&serde_json::to_string(&(&plan.kind, &plan.threads)).unwrap());
     out.signature = out.signature.wrapping_add(fp.0);
+    let n_panic = plan.threads.iter().flatten().filter(|o| matches!(o, LOp::PanicDrop { .. })).count() as u64 + if plan.panic_end { plan.threads.len() as u64 } else { 0 };
+    out.faults.push(("injected_panic_unwinding", n_panic));
     out.probes.push(("nonempty_flushes", n_flush_nonempty));
     out.probes.push(("drops_with_pending_data", n_drop_pending));
     out.probes.push(("concurrent_plans", (!single) as u64));
@@ -702,10 +704,10 @@ impl Scenario for C12 {
     }
     fn info(&self) -> Info {
         Info {
-            rule: "one run = one shared metric (counter, int counter, histogram, counter vector, histogram vector) and 1-2 simulated threads, each owning 1-3 local handles (clones included), executing 3-12 operations: local update of weight 2^k, flush (always issued twice), reset/clear, clone, drop, remove_label_values, local getters, direct update of the shared metric, read; a per-handle pending model predicts after every operation (single-threaded plans) and at quiescence (all plans; read under the scheduler) what the shared metric must hold; non-trivial = >=3 operations; distinct = distinct (kind, operation lists, interleaving)",
+            rule: "one run = one shared metric (counter, int counter, histogram, counter vector, histogram vector) and 1-2 simulated threads, each owning 1-3 local handles (clones included), executing 3-12 operations: local update of weight 2^k, flush (always issued twice, the second time through the LocalMetric trait), reset/clear, clone, drop, drop while unwinding from an injected panic, remove_label_values, local getters, direct update of the shared metric, read; a per-handle pending model predicts after every operation (single-threaded plans) and at quiescence (all plans; read under the scheduler) what the shared metric must hold; non-trivial = >=3 operations; distinct = distinct (kind, operation lists, interleaving)",
             assumptions: vec!["sequentially consistent interleavings at shim-visible operations", "remove_label_values is generated only in single-threaded plans; an update flushed through a handle whose child was removed from the vector is delivered to the detached child and not expected in the vector"],
             real: vec!["prometheus::local::{LocalCounter,LocalIntCounter,LocalHistogram,LocalCounterVec,LocalHistogramVec} and the shared metrics they feed"],
-            stubbed: vec!["thread scheduling", "spurious CAS failure", "stalls"],
+            stubbed: vec!["thread scheduling", "spurious CAS failure", "stalls", "panics (raised by the harness, caught after the destructors ran)"],
             expected_probes: vec!["nonempty_flushes", "drops_with_pending_data", "concurrent_plans"],
         }
     }
